@@ -51,6 +51,8 @@ pub fn obs_alphabet(tier: Tier) -> Vec<Obs> {
         Obs::F(f64::INFINITY),
         Obs::F(f64::NEG_INFINITY),
         Obs::R(3.0, 2),
+        // a single occurrence reported in the repeated form (weighted like any other when sampling)
+        Obs::R(2.5, 1),
         Obs::R(5.0, 0),
         Obs::R(f64::NAN, 1),
         // an infinite mean over several occurrences (clamped after, not before, the division)
